@@ -60,15 +60,19 @@ def _reads_with_delegates(prog, b, depth):
         g = prog.bodies.get(cid) if cid else None
         if g is None or g.crate != b.crate or g.id == b.id or g.kind == 'closure':
             continue
-        greads = None
+        # only a helper that is handed (parts of) two different parameters compares them on the caller's behalf; a unary
+        # accessor called on each operand in turn (to_description, get_reason) compares nothing
+        passed = []
         for k, o in enumerate(t[3]):
             if o[0] not in ('c', 'm'):
                 continue
             loc, _path = _resolve(b, o[1])
-            if loc is None:
-                continue
-            if greads is None:
-                greads = _reads_with_delegates(prog, g, depth + 1)
+            if loc is not None:
+                passed.append((k, loc))
+        if len({loc for _, loc in passed}) < 2:
+            continue
+        greads = _reads_with_delegates(prog, g, depth + 1)
+        for k, loc in passed:
             for key, fields in greads.get(k + 1, {}).items():
                 for fi in fields:
                     reads.setdefault(loc, {}).setdefault(key, {}).setdefault(fi, t[7])
